@@ -6,7 +6,7 @@ stragglers) with generated partition / crash / loss windows.
 from __future__ import annotations
 
 from simkit import chaosnet
-from simkit.c07_zoo import InvalidScenario, arrivals, check_arr, check_num, lat, ns
+from simkit.c07_zoo import InvalidScenario, arrivals, check_arr, check_num, lat, lossy, ns, rel
 from simkit.c07_drv_flow import flow_cfg, horizon, svc_times, feed
 from simkit.c07_drv_state import ops_cfg, spawn
 
@@ -65,8 +65,30 @@ class _N:
         self.name = name
 
 
+class SignedJitter(chaosnet.LatencyDistribution):
+    """Symmetric +/- jitter (a user LatencyDistribution whose samples can be negative), keyed per sample."""
+
+    def __init__(self, seed, link, amplitude_s):
+        super().__init__(0.0)
+        self.seed, self.link, self.amp, self.k = seed, link, amplitude_s, 0
+
+    def get_latency(self, current_time):
+        from simkit.rng import unit
+        from happysimulator.core.temporal import Duration
+        u = unit(self.seed, "jitter", self.link, self.k)
+        self.k += 1
+        return Duration(int((2.0 * u - 1.0) * self.amp * 1e9))
+
+    def __deepcopy__(self, memo):
+        c = SignedJitter(self.seed, self.link, self.amp)
+        c.k = self.k
+        return c
+
+
 def gen_net(rng, n, horizon_s, scale=0.01, kinds=("partition", "crash", "pause", "loss", "latency")):
     return {"profile": chaosnet.gen_latency_profile(rng, scale), "n": n,
+            # +/- jitter smaller or larger than the base latency (larger: the sum can be negative and must be clamped)
+            "jitter": rng.choice([None, None, round(scale * rng.choice([0.5, 1.5, 4.0]), 6)]),
             "faults": chaosnet.gen_faults(rng, n, horizon_s, kinds=kinds, max_faults=rng.choice([0, 2, 4]),
                                           min_len=horizon_s * 0.05, max_len_frac=0.3) if n >= 2 else []}
 
@@ -111,6 +133,10 @@ def mesh(z, names, netc, factory):
     z.add(net, *nodes)
     for l in links.values():
         z.add(l)
+    if netc.get("jitter"):
+        for key, l in links.items():
+            l.jitter = SignedJitter(int(z.sc.get("net_seed", 1)), f"{key[0]}->{key[1]}", check_num(netc["jitter"], 0, 10))
+        z.probe("probe.signed_jitter")
     faults = shift_faults(z, [f for f in netc.get("faults", [])
                               if all(i < len(nodes) for i in (f.get("a", []) + f.get("b", []) + [f.get("node", 0), f.get("src", 0), f.get("dst", 0)]))])
     fd = chaosnet.FaultDriver(net, nodes, links, faults)
@@ -142,6 +168,7 @@ def _network():
         c = flow_cfg(rng)
         c.update(net=gen_net(rng, n, 2.0, kinds=("partition", "loss", "latency")), bw=rng.choice([None, 1e4, 1e6]),
                  direct=rng.random() < 0.5, dlat=lat(rng, hi=0.05), loss=rng.choice([0.0, 0.2]))
+        c["djitter"] = rng.choice([None, rel(rng, max(c["dlat"], 0.001), (0.5, 2.0, 5.0))])
         return c
 
     def build(z, c):
@@ -154,7 +181,9 @@ def _network():
             l.bandwidth_bps = c.get("bw")
         # a stand-alone link used as a pipeline stage (events addressed to the link itself)
         tail = z.sink("tail")
+        dj = c.get("djitter")
         dl = z.add(NetworkLink("direct_link", latency=ConstantLatency(check_num(c["dlat"])), packet_loss_rate=check_num(c["loss"], 0, 1),
+                               jitter=SignedJitter(int(z.sc.get("net_seed", 1)), "direct", check_num(dj, 0, 10)) if dj else None,
                                egress=tail))
         act = z.actor()
 
@@ -366,7 +395,7 @@ def _membership():
 @driver("DistributedLock", ["DistributedLock"])
 def _dlock():
     def gen(rng):
-        lease = lat(rng, zero_p=0.0, hi=0.3)
+        lease = rng.choice([lat(rng, zero_p=0.0, hi=0.3), 0.01, 0.02, lossy(rng, 0.01, 0.2)])
         c = ops_cfg(rng, ["acq", "acq", "try", "evt", "stale"], marks=[lease], nkeys=rng.randint(1, 2))
         c.update(lease=lease, maxw=rng.choice([0, 1, 3]))
         return c
@@ -591,9 +620,18 @@ def _autoscaler():
     def gen(rng):
         ei = lat(rng, zero_p=0.0, hi=0.3)
         c = flow_cfg(rng, marks=[ei], n=rng.randint(10, 40))
-        c.update(ei=ei, oc=rng.choice([0.0, ei, round(ei * 3, 6)]), ic=rng.choice([0.0, ei, round(ei * 3, 6)]),
-                 policy=rng.choice(["target", "step", "queue"]), mn=rng.randint(1, 2), mx=rng.randint(2, 5), nb=rng.randint(1, 3),
+        def cooldown():
+            return rng.choice([0.0, ei, round(ei * 3, 6), rel(rng, ei), lossy(rng, 0.01, 1.5), lossy(rng, 0.01, 0.3)])
+        c.update(ei=ei, oc=cooldown(), ic=cooldown(),
+                 policy=rng.choice(["target", "step", "queue"]), mn=rng.randint(1, 2), mx=rng.randint(2, 6), nb=rng.randint(1, 3),
                  svc=svc_times(rng), real=True)
+        if rng.random() < 0.6:
+            # sustained overload: the control loop keeps wanting to scale out (and is held back by the cooldown)
+            st = rng.choice([0.2, 0.5, 1.0])
+            c["svc"] = [st]
+            c["arr"], c["tags"] = arrivals(rng, rng.randint(30, 40), rng.choice([0.5, 1.5]), [ei, c["oc"]])
+            c["tags"] = c["tags"] + ["overload"]
+            c["mx"] = rng.randint(4, 8)
         return c
 
     def build(z, c):
